@@ -207,7 +207,9 @@ class RebuildCheck:
             return gs
         if self.id == "C14":
             for fam in FAMILIES:
-                for sh in ("S1", "D2n", "D3s"):
+                for sh in ("S1", "D2n", "D3s", "D1n"):
+                    if sh == "D1n" and "v2" in fam.lower():
+                        continue
                     gs.append({"kind": "prestate", "family": fam, "shape": sh,
                                "seed": seed, "tier": tier})
             return gs
@@ -230,7 +232,7 @@ class RebuildCheck:
                        "shape": "S1", "alpha": [514, 515, 1026, 2050],
                        "first": None, "seed": seed, "tier": tier})
         for P in ([32768] if quick else [16384, 32768]):
-            for sh in ["S1", "D1", "D2n", "D3s", "D3x", "D3n"] + (
+            for sh in ["S1", "D1", "D1n", "D2n", "D3s", "D3x", "D3n"] + (
                     [] if quick else ["D3", "D4"]):
                 n = world.nfiles(sh)
                 alpha = [0, 1, P - 1, P, P + 1, 2 * P, 2 * P + 1] if n < 3 \
@@ -252,6 +254,8 @@ class RebuildCheck:
         files = world.files_of(w, seed)
         tree = dict(files)
         found = []
+        if w["shape"] == "D1n":
+            fams = [f for f in (fams or FAMILIES) if "v2" not in f.lower()]
         with tf.scale(B):
             sb0 = world.fresh_dir("rb_")
             src_parent = os.path.join(sb0, "src")
@@ -397,7 +401,8 @@ class RebuildCheck:
         P = 32768
         quick = g["tier"] == "quick"
         n = world.nfiles(sh)
-        sizesets = {1: [[P + 5], [7]], 2: [[P + 5, 9], [2 * P, P]],
+        sizesets = {1: [[P + 5], [7]] if sh != "D1n" else [[P + 5]],
+                    2: [[P + 5, 9], [2 * P, P]],
                     3: [[P + 5, 9, P], [5, 0, 2 * P]]}[n]
         pre_alpha = ["absent", "correct", "wrong-same-size", "shorter",
                      "longer"]
